@@ -45,10 +45,13 @@ def tag(i):
 
 
 def clip(i):
+    """clip `i` covers [10 i, 10 i + 10) of the recording; ids from 100 on are *twins*: clip 100 + i is another
+    clip (its own uuid) over the same recording and the same time window as clip i"""
     from soundevent import data
     b = _base()
     if i not in b["clips"]:
-        b["clips"][i] = data.Clip(recording=b["rec"], start_time=10.0 * i, end_time=10.0 * i + 10.0)
+        w = i - 100 if i >= 100 else i
+        b["clips"][i] = data.Clip(recording=b["rec"], start_time=10.0 * w, end_time=10.0 * w + 10.0)
     return b["clips"][i]
 
 
@@ -117,7 +120,8 @@ def build(inp):
     for c in inp["predictions"]:
         preds.append(data.ClipPrediction(
             clip=clip(c["clip"]), tags=ptags(c.get("tags", [])),
-            sound_events=[data.SoundEventPrediction(sound_event=sound_event(e), score=1.0, tags=ptags(e["tags"]))
+            sound_events=[data.SoundEventPrediction(sound_event=sound_event(e), tags=ptags(e["tags"]),
+                                                    score=float(frac(e["conf"])) if "conf" in e else 1.0)
                           for e in c.get("events", [])]))
     for c in inp["annotations"]:
         anns.append(data.ClipAnnotation(
